@@ -65,3 +65,66 @@ Print Assumptions C18_exact_on_printable.
 Example C18_ex : listed M_NOSV 84 120 = true /\ listed M_NOSV 84 122 = false /\ value_blind M_OVNI 66 = true /\
   legacy M_NOSV 84 122 = false /\ value_blind M_NOSV 84 = false.
 Proof. vm_compute. repeat split. Qed.
+
+(* ==== dispatch code from source (unit dispatch) ==== *)
+(* Gen/Dispatch_gen.v (translate/units/dispatch.py) renders, statement by statement, the dispatch code of the eight
+   models: model_<m>_event, process_ev and simple of nosv / nanos6 / nodes, process_ev of mpi / tampi / openmp,
+   context_switch of kernel, pre_cpu / pre_flush / model_ovni_event of ovni, over Emu/DispatchPre.v.  The table
+   look-up `ss_table[c][v]` / `fn_table[c][v]` is the one new primitive: the row unit `tables` dumps from the same
+   array (Tables_gen.table), zero when the entry is all zeros.  pre_task is the function of unit taskev
+   (C07_task_events_from_source), pre_thread / pre_affinity those of unit guards (C04_dispatch_from_source), the channel
+   operations are chan_step (C08_chan_ops_from_source).  mark_event of ovni/mark.c is generated too (find_mark_type = the position of the mark channel of that
+   type).  Primitives with a hand-written meaning: pre_type (type_create with the gid of the label given from outside),
+   pre_burst (accepted, no effect).
+   DispatchProofs.agrees sx cs en who jumbo aux st m c v p gen: if core_step on MarkDefs.decode_all en cs m c v p jumbo aux
+   accepts with state st' and written channels d, gen returns exactly (st', d) from (st, []); if it refuses, gen
+   refuses and does not dereference NULL.  So the hand-written cats, need_of and switches of Emu/DecodeDefs.v are what
+   the C does, for EVERY model, category, value (not only bytes) and payload, on every state where the model is enabled
+   (cs = the channels of the enabled models followed by any mark channels; for the base model's H and A categories the
+   invariant of C04/C05). *)
+From OV Require Emu.DispatchPre Gen.Dispatch_gen Proofs.DispatchProofs Proofs.GuardsProofs.
+Theorem C18_dispatch_from_source : forall sx en marks who th me jumbo aux st m c v p,
+  let cs := mk_chans en ++ marks in
+  nth_error (threads st) who = Some th -> nth_error (s_threads sx) who = Some me -> s_chans sx = cs ->
+  In m DispatchProofs.all_models -> memz m en = true -> (m = M_OVNI -> GuardsProofs.GInv sx st) ->
+  DispatchProofs.agrees sx cs en who jumbo aux st m c v p (DispatchProofs.gen_event m (DispatchProofs.mk who m c v p)).
+Proof. exact DispatchProofs.dispatch_from_source. Qed.
+Print Assumptions C18_dispatch_from_source.
+
+(* C18_unlisted_rejected for the code as generated from the source: every unlisted code is refused by it *)
+Theorem C18_unlisted_rejected_from_source : forall sx en marks who th me jumbo aux st m c v p,
+  let cs := mk_chans en ++ marks in
+  nth_error (threads st) who = Some th -> nth_error (s_threads sx) who = Some me -> s_chans sx = cs ->
+  In m DispatchProofs.all_models -> memz m en = true -> (m = M_OVNI -> GuardsProofs.GInv sx st) ->
+  listed m c v = false -> legacy m c v = false -> value_blind m c = false ->
+  let E := {| DispatchPre.d_te := {| TaskEvPre.te_sx := sx; TaskEvPre.te_cs := cs |}; DispatchPre.d_jumbo := jumbo; DispatchPre.d_aux := aux |} in
+  exists e', DispatchProofs.gen_event m (DispatchProofs.mk who m c v p) E (DispatchProofs.W st []) = Err e' /\ e' <> DispatchPre.E_TRAP.
+Proof.
+  intros sx en marks who th me jumbo aux st m c v p cs Hth Hme Hsx Hm Hen HI Hl Hg Hb E.
+  apply (DispatchProofs.bad_refused sx en marks who th me jumbo aux st m c v p Hth Hme Hsx Hm Hen HI).
+  pose proof (unlisted_rejected en (mk_chans en ++ marks) m c v p jumbo aux Hl Hg Hb) as B.
+  destruct (decode_all en (mk_chans en ++ marks) m c v p jumbo aux); try discriminate B. eexists; reflexivity.
+Qed.
+Print Assumptions C18_unlisted_rejected_from_source.
+
+(* the generated dispatch evaluated: one thread, models ovni + nosv + kernel.  After OHx: VSh VS[ leave the subsystem
+   stack [7; 6]; VSh VSf leave it empty; VSf alone, an unknown category, an event while out of CPU (KCO) and an event
+   of a thread that does not run are refused; KCO KCI restore; OF[ OF] OB. OU[ OCn are accepted, OCo is not *)
+Example C18_ex_dispatch :
+  let run := fun evs => DispatchProofs.ex_ss (DispatchProofs.ex_run (init DispatchProofs.ex_sx) evs) in
+  let x := DispatchProofs.OHx in
+  run [x; (86, 83, 104, []); (86, 83, 91, [])] = Some [7; 6] /\
+  run [x; (86, 83, 104, []); (86, 83, 102, [])] = Some [] /\
+  run [x; (86, 83, 102, [])] = None /\ run [x; (86, 90, 122, [])] = None /\
+  run [x; (75, 67, 79, []); (86, 83, 104, [])] = None /\
+  run [x; (75, 67, 79, []); (75, 67, 73, []); (86, 83, 104, [])] = Some [6] /\
+  run [(86, 83, 104, [])] = None /\
+  run [x; (79, 70, 91, []); (79, 70, 93, []); (79, 66, 46, []); (79, 85, 91, []); (79, 67, 110, [])] = Some [] /\
+  run [x; (79, 67, 111, [])] = None /\
+  (* marks (mark type 3 declared): OM[ 5, OM[ 6, OM] 6 leave [5]; an undeclared type, the value 0, 11 bytes are refused *)
+  (let mrun := fun evs => DispatchProofs.ex_mark (DispatchProofs.ex_run (init DispatchProofs.ex_sx) evs) in
+   mrun [x; (79, 77, 91, [5;0;0;0;0;0;0;0;3;0;0;0]); (79, 77, 91, [6;0;0;0;0;0;0;0;3;0;0;0]); (79, 77, 93, [6;0;0;0;0;0;0;0;3;0;0;0])] = Some [5] /\
+   mrun [x; (79, 77, 91, [5;0;0;0;0;0;0;0;4;0;0;0])] = None /\ mrun [x; (79, 77, 91, [0;0;0;0;0;0;0;0;3;0;0;0])] = None /\
+   mrun [x; (79, 77, 91, [5;0;0;0;0;0;0;0;3;0;0])] = None).
+Proof. vm_compute. repeat split. Qed.
+(* ==== end of block (unit dispatch) ==== *)
